@@ -51,6 +51,13 @@ def exhaustive(tier):
     for lf in (["min", 3], ["range", 1, 2], ["eq", 2], ["max", 0]):
         for order in itertools.permutations(["len", "alphabet", "substr"]):
             yield {"spec": {"t": "str", "len": lf, "alphabet": "ab", "substr": "ba", "order": list(order)}}
+    nasty = [r"""\w+=['"]\w*['"]""", r"""'" "\d""", r"""[\\'"]+""", "a\nb", "\\", "'", '"', "{0}%s", "\u00e9\t", "\\d+\n", "(?x)\n \\d+  # digits\n",
+             "\r\\w", "\x00\\.", "'''", '"""', "\\N{DASH}", "\\'", "a\\\nb", "\u2028\\s", "tab\there\\t"]
+    for x in nasty:
+        for sp in ({"t": "str", "pattern": x}, {"t": "str", "value": x}, {"t": "str", "substr": x, "order": ["substr"]},
+                   {"t": "str", "alphabet": x, "order": ["alphabet"]}, {"t": "bytes", "value": x.encode("utf-8", "surrogatepass")},
+                   {"t": "dict", "entries": [{"key": x, "opt": True, "spec": {"t": "str", "value": x}}], "relaxed": True}):
+            yield {"spec": sp}
     for order in itertools.permutations(["min", "max"]):
         yield {"spec": {"t": "int", "min": 3, "max": 3, "order": list(order)}}
         yield {"spec": {"t": "int", "min": 5, "max": 1, "order": list(order)}}
